@@ -340,9 +340,10 @@ func project(ev *event, c call, cs *fcase, ct contract, a fm, res result) {
 	}
 	if res.vals != nil {
 		ev.Vals = make([]int, len(res.vals))
+		ev.VFxOk = true
 		for i, x := range res.vals {
 			if math.IsNaN(x) || math.Abs(x) > fxLimit*64 {
-				ev.FxOk = false
+				ev.FxOk, ev.VFxOk = false, false
 				continue
 			}
 			ev.Vals[i] = int(math.Round(x * fxScale))
